@@ -771,6 +771,7 @@ package xpath
 //@   captures[same-test@C01] q == nil || q.Predicate == f.Predicate
 //@   ensures[passes-test@C01] result != nil ==> predv(f.Predicate, pos(result))
 //@   creation[not-from-attribute@C01] kind(pos(node)) != 2     // an attribute start is first moved to its element, whose descendants follow it
+//@   stores[subtree-root-included@C01] q == nil || q.Self     // a sibling subtree is walked with its root (only the first walk, below the element of an attribute start, leaves the element out)
 //@   uses tree-child tree-parent tree-depth tree-kinds
 //@   let S0 = kind(pos(node)) != 2
 //@   loop 0 invariant[never-on-attribute@C01] S0 ==> kind(pos(captured(node))) != 2
@@ -803,7 +804,7 @@ package xpath
 //@   props C15 C01
 //@   captures p != nil && node != nil
 //@   theory nav for C01
-//@   captures[same-test@C01] q == nil || is(q, *descendantQuery) && as(q, *descendantQuery).Predicate == p.Predicate
+//@   captures[same-test@C01] q == nil || is(q, *descendantQuery) && as(q, *descendantQuery).Predicate == p.Predicate && as(q, *descendantQuery).Self     // the sibling subtree is walked with the step's test, its root included
 //@   ensures[passes-test@C01] result != nil ==> predv(p.Predicate, pos(result))
 //@   uses tree-child tree-parent tree-depth tree-kinds tree-up
 //@   let S0 = kind(pos(node)) != 2
